@@ -426,6 +426,8 @@ class Lowerer:
         self.glob_names = {}
         self.glob_order = []
         self.cuts = set()        # C names not to emit bodies for
+        self.type_pending = []
+        self.type_defer = 0
         self.cut_qual = ()       # qualified-name prefixes not to emit bodies for (object code behind a contract)
         self.specs = {}          # cname -> spec dict (contracts)
         self.local_alias = {}
@@ -562,10 +564,23 @@ class Lowerer:
         self.type_done[qual] = tag
         if qual in self.type_inprogress:
             return tag
+        if getattr(self, 'type_defer', 0) > 0:
+            # reached only through a pointer field of a record being emitted: a forward declaration is enough there, the body
+            # follows once that record is complete (a record that embeds the other by value must come second)
+            self.type_done.pop(qual)
+            if qual not in self.type_pending:
+                self.type_pending.append(qual)
+                self.out_types.append('%s;' % tag)
+            return tag
         self.type_inprogress.add(qual)
         body = self.record_body(n)
         self.out_types.append('%s %s;' % (tag, body))
         self.type_inprogress.discard(qual)
+        if not self.type_inprogress:
+            while self.type_pending:
+                q = self.type_pending.pop(0)
+                if q not in self.type_done:
+                    self.record_tag(q)
         return tag
 
     def record_body(self, n):
@@ -592,7 +607,15 @@ class Lowerer:
                     kind = 'union' if a.get('tagUsed') == 'union' else 'struct'
                     lines.append('  %s %s;' % (kind, self.record_body(a).replace('\n', '\n  ')))
                     continue
-                t = self.ctype(c['type'])
+                qt = c['type'].get('desugaredQualType') or c['type'].get('qualType', '')
+                through_ptr = qt.rstrip().endswith(('*', '&', '*const', '* const')) and '(' not in qt
+                if through_ptr:
+                    self.type_defer = getattr(self, 'type_defer', 0) + 1
+                try:
+                    t = self.ctype(c['type'])
+                finally:
+                    if through_ptr:
+                        self.type_defer -= 1
                 d = t.decl(c['name'], keep_const=False)
                 if c.get('isBitfield'):
                     w = self.ast._find_literal(c)
@@ -729,8 +752,18 @@ class Lowerer:
             self.fn_decl_node[m] = d
         rn = getattr(self, 'call_rename', None)
         if rn and isinstance(self.cur, dict) and self.cur.get('cname') in rn:
-            # bounded counterexample search only: calls from this function to a recursive callee go to a contract stub
-            return rn[self.cur['cname']].get(cname, cname)
+            # calls from this function to a recursive callee go to a renamed callee: a contract stub in the bounded counterexample
+            # search, a prototype of the same signature carrying the callee form of the contract in the proof
+            newn = rn[self.cur['cname']].get(cname, cname)
+            if newn != cname and newn not in self.fn_info and not getattr(self, 'no_contracts', False):
+                proto = self.proto(d)
+                _, ret, params = self.fn_signature(d)
+                loc = self.ast.loc.get(id(d), ('?', 0, 0))
+                self.fn_info[newn] = {'cname': newn, 'qualname': self.ast.func_qualname(d), 'mangled': m, 'file': loc[0], 'lines': [loc[1], loc[2]], 'ret': ret,
+                                      'params': params, 'kind': d.get('kind'), 'is_method': self.is_method(d), 'loops': 0, 'has_body': False,
+                                      'ret_is_ref': ret.is_ref(), 'node': d, 'renamed_from': cname}
+                self.extra_fns.append(proto.replace(cname + '(', newn + '(', 1) + self.contract_text(newn, self.specs.get(newn, {})) + ';')
+            return newn
         return cname
 
     def lower_all(self):
@@ -758,7 +791,8 @@ class Lowerer:
             if c.get('kind') == 'CompoundStmt':
                 body = c
         spec = self.specs.get(cname, {})
-        if body is not None and cname not in self.cuts and any(info['qualname'].startswith(q) for q in self.cut_qual):
+        if body is not None and cname not in self.cuts and any(info['qualname'].startswith(q) for q in self.cut_qual) and \
+                not any(info['qualname'].startswith(q) for q in getattr(self, 'uncut_qual', ())):
             self.cuts.add(cname)
         if cname in self.cuts or body is None:
             if body is None and cname not in self.cuts and not spec.get('extern_ok') and not info['qualname'].startswith('QV::'):
